@@ -2,6 +2,7 @@ import Qhttp.Props.C07
 import Qhttp.Props.C16
 import Qhttp.Props.C14
 import Qhttp.Lemmas.C08Range
+import Qhttp.Lemmas.C08Parse
 /-
   C08 — file responses are self-consistent full or partial content.
 -/
@@ -169,6 +170,43 @@ theorem plan_file_range {fe : FsEnv} {path : Bytes} {hs : HeaderMap} {loc : List
     · cases h
     · cases h; rfl
 
+/-- a header the property reads as the range `(a, b)`: the Range object is valid, its absolute
+    bounds are `a` and `b`, and its `length()` / `contentRange()` texts are the expected ones -/
+theorem range_texts {hdr : Bytes} {size a b : Nat} (hsp : specRange hdr size = some (a, b)) :
+    (requestedRange hdr size).isValid = true ∧
+    (requestedRange hdr size).absFrom = (a : Int) ∧ (requestedRange hdr size).absTo = (b : Int) ∧
+    a ≤ b ∧ b < size ∧
+    intText (requestedRange hdr size).length = natDigits (b - a + 1) ∧
+    (requestedRange hdr size).contentRange =
+      natDigits a ++ [45] ++ natDigits b ++ [47] ++ natDigits size := by
+  obtain ⟨hiff, hval⟩ := range_eq_spec hdr size
+  rw [hsp] at hiff
+  have hv : (requestedRange hdr size).isValid = true := by simpa using hiff
+  obtain ⟨hspec, h0, h1, h2, hlen⟩ := hval hv
+  rw [hsp] at hspec
+  simp only [Option.some.injEq, Prod.mk.injEq] at hspec
+  obtain ⟨ha, hb⟩ := hspec
+  have hsize := requestedRange_valid_size hv
+  have hwf : C16.WF (requestedRange hdr size) := by
+    rw [requestedRange_eq]
+    split
+    · exact C16.wf_ofString _ _
+    · exact C16.wf_invalid
+  have hcr := (C16.valid_known _ hwf hv (by rw [hsize]; omega)).2.2.2.2
+  have hfa : (requestedRange hdr size).absFrom = (a : Int) := by omega
+  have hfb : (requestedRange hdr size).absTo = (b : Int) := by omega
+  refine ⟨hv, hfa, hfb, by omega, by omega, ?_, ?_⟩
+  · rw [hlen, hfa, hfb]
+    have : ((b : Int) - (a : Int) + 1) = ((b - a + 1 : Nat) : Int) := by omega
+    rw [this, intText_nat]
+  · rw [hcr, hfa, hfb, hsize, intText_nat, intText_nat, intText_nat]
+
+theorem range_invalid {hdr : Bytes} {size : Nat} (hsp : specRange hdr size = none) :
+    (requestedRange hdr size).isValid = false := by
+  have := (range_eq_spec hdr size).1
+  rw [hsp] at this
+  simpa using this
+
 /-- 6. shape of a file response: the API calls made from `headersParsed` and the copier
     configuration, in terms of the property's reading `specRange` of the Range header.
     Either no (valid first) range: `Content-Length: size`, the copier copies the whole file;
@@ -195,42 +233,21 @@ theorem file_plan_shape (fe : FsEnv) (s : Sock) (loc : List Bytes) (r : Range)
       C14.wanted { src := fe.content loc, block := 65536, range := some ((a : Int), (b : Int)) } =
         ((fe.content loc).drop a).take (b - a + 1) := by
   have hr := plan_file_range hp
-  obtain ⟨hiff, hval⟩ := range_eq_spec (HeaderMap.value RANGE s.reqHeaders) (fe.content loc).length
-  rw [← hr] at hiff hval
   unfold hpOps copierCfg
   rw [hp]
   simp only []
   cases hsp : specRange (HeaderMap.value RANGE s.reqHeaders) (fe.content loc).length with
   | none =>
-    rw [hsp] at hiff
-    have hv : r.isValid = false := by simpa using hiff
+    have hv : r.isValid = false := by rw [hr]; exact range_invalid hsp
     simp only [hv, Bool.false_eq_true, if_false, List.cons_append, List.nil_append, true_and]
     rfl
   | some p =>
     obtain ⟨a, b⟩ := p
-    rw [hsp] at hiff
-    have hv : r.isValid = true := by simpa using hiff
-    obtain ⟨hspec, h0, h1, h2, hlen⟩ := hval hv
-    rw [hsp] at hspec
-    simp only [Option.some.injEq, Prod.mk.injEq] at hspec
-    obtain ⟨ha, hb⟩ := hspec
-    have hsize : r.size = ((fe.content loc).length : Int) := by
-      rw [hr]; exact requestedRange_valid_size (by rw [← hr]; exact hv)
-    have hwf : C16.WF r := by
-      rw [hr, requestedRange_eq]
-      split
-      · exact C16.wf_ofString _ _
-      · exact C16.wf_invalid
-    have hcr := (C16.valid_known r hwf hv (by rw [hsize]; omega)).2.2.2.2
-    have hfa : r.absFrom = (a : Int) := by omega
-    have hfb : r.absTo = (b : Int) := by omega
-    have hab : a ≤ b := by omega
-    have hbs : b < (fe.content loc).length := by omega
+    obtain ⟨hv, hfa, hfb, hab, hbs, hlt, hct⟩ := range_texts hsp
+    rw [← hr] at hv hfa hfb hlt hct
     simp only [hv, if_true, List.cons_append, List.nil_append]
     refine ⟨hab, hbs, ?_, ?_, ?_⟩
-    · rw [hcr, hlen, hfa, hfb, hsize, intText_nat, intText_nat, intText_nat]
-      have : ((b : Int) - (a : Int) + 1) = ((b - a + 1 : Nat) : Int) := by omega
-      rw [this, intText_nat]
+    · rw [hlt, hct]
       simp [List.append_assoc]
     · rw [hfa, hfb]
     · unfold C14.wanted
@@ -240,6 +257,63 @@ theorem file_plan_shape (fe : FsEnv) (s : Sock) (loc : List Bytes) (r : Range)
       have : b + 1 - a = b - a + 1 := by omega
       rw [this]
 
+/-! ### 7. the composed run -/
+
+/-- **C08 on the composed run** (socket + `processFile` + copier), files not larger than one
+    copy block.  Scenario shape: the socket is created, the whole request `head CRLF CRLF`
+    arrives in one segment (a head `C01.expect` accepts, without Content-Length, any Range header
+    or none), one event-loop turn, then any sequence of acknowledgements and further turns.
+    The response then is the whole file with `Content-Length: size`, or exactly the first range
+    with 206 / `Content-Range` / `Content-Length` consistent — the executable predicate the driver
+    evaluates on implementation traces. -/
+theorem holds_run (env : Env) (fe : FsEnv) (req head : Bytes) (snap : Snap) (loc : List Bytes)
+    (r : Range) (tail : List Event) (complete : Bool)
+    (hreq : breakOn CRLF2 req = some (head, []))
+    (hexp : C01.expect env head = some snap)
+    (hcl : HeaderMap.contains Sock.CONTENT_LENGTH snap.headers = false)
+    (hplan : plan fe (snap.path.drop 1) snap.headers = .file loc r)
+    (hsize : (fe.content loc).length ≤ 65536)
+    (hmime : containsByte CR (fe.mime loc) = false)
+    (htail : tail.all C03L.allowedEv = true) :
+    holds fe (snap.path.drop 1) (HeaderMap.value RANGE snap.headers) complete
+      (FsHandler.run env fe (.new :: .feed req :: .turn :: tail)).sock.log = true := by
+  obtain ⟨rh, p, q, hparse, hurl, rfl⟩ := (C01.expect_eq_some_iff env head snap).1 hexp
+  simp only at hcl hplan ⊢
+  have hr := plan_file_range hplan
+  have hm : CR ∉ fe.mime loc := containsByte_eq_false_iff.1 hmime
+  have hbounds : r.isValid = true →
+      0 ≤ r.absFrom ∧ r.absFrom ≤ r.absTo ∧ r.absTo < (fe.content loc).length := by
+    intro hv
+    rw [hr] at hv ⊢
+    obtain ⟨_, h0, h1, h2, _⟩ := (range_eq_spec _ _).2 hv
+    exact ⟨h0, h1, h2⟩
+  have hwire := run_wire env fe req head rh p q loc r tail hreq hparse hurl hcl hplan hsize hbounds htail
+  have hplan' : plan fe (p.drop 1) [(RANGE, HeaderMap.value RANGE rh.headers)] = .file loc r := by
+    rw [plan_congr fe _ (value_RANGE_single _)]; exact hplan
+  unfold holds
+  cases complete with
+  | false => rfl
+  | true =>
+    simp only [Bool.not_true, Bool.false_eq_true, if_false, hplan', hwire,
+      parse_response r _ _ _ hm, statusLine_respStart]
+    cases hsp : specRange (HeaderMap.value RANGE rh.headers) (fe.content loc).length with
+    | none =>
+      have hv : r.isValid = false := by rw [hr]; exact range_invalid hsp
+      simp only [respHdrs, bodyOf, hv, Bool.false_eq_true, if_false]
+      rw [valuesOf_CL_full _ _ (comma_not_mem_natDigits _), valuesOf_CR_full]
+      simp [one]
+    | some ab =>
+      obtain ⟨a, b⟩ := ab
+      obtain ⟨hv, hfa, hfb, hab, hbs, hlt, hct⟩ := range_texts hsp
+      rw [← hr] at hv hfa hfb hlt hct
+      simp only [respHdrs, bodyOf, hv, if_true, hlt, hct, hfa, hfb, Int.toNat_natCast]
+      have hcomma := comma_not_mem_rangeText a b (fe.content loc).length
+      have e : BYTES_SP ++ (natDigits a ++ [45] ++ natDigits b ++ [47] ++ natDigits (fe.content loc).length) =
+          BYTES_SP ++ natDigits a ++ [45] ++ natDigits b ++ [47] ++ natDigits (fe.content loc).length := by
+        simp [List.append_assoc]
+      rw [e, valuesOf_CL_partial _ _ _ (comma_not_mem_natDigits _), valuesOf_CR_partial _ _ _ hcomma]
+      simp [one, hab, hbs]
+
 example : specRange (lit ['b','y','t','e','s','=','2','-','5',',','7','-']) 10 = some (2, 5) := by decide
 example : specRange (lit ['b','y','t','e','s','=','-','3']) 10 = some (7, 9) := by decide
 example : specRange (lit ['b','y','t','e','s','=','4','-']) 10 = some (4, 9) := by decide
@@ -247,5 +321,61 @@ example : specRange (lit ['b','y','t','e','s','=','4','-','1','0']) 10 = none :=
 example : specRange (lit ['b','y','t','e','s','=','-','0']) 10 = none := by decide
 example : specRange (lit ['i','t','e','m','s','=','1','-','2']) 10 = none := by decide
 example : (requestedRange (lit ['b','y','t','e','s','=','2','-','5',',','7','-']) 10).isValid = true := by decide
+
+/-! ### non-vacuity of `holds_run` -/
+
+def exEnv : Env := { url := fun raw => some (raw, []), errPage := fun _ _ => [] }
+def exFe : FsEnv :=
+  { root := lit ['/','r'], tree := [([lit ['r']], .dir), ([lit ['r'], lit ['f']], .file)],
+    content := fun _ => lit ['h','e','l','l','o',' ','w','o','r','l','d'],
+    mime := fun _ => lit ['t','e','x','t','/','p','l','a','i','n'],
+    listing := fun _ _ => [] }
+def exHead : Bytes := lit ['G','E','T',' ','/','f',' ','H','T','T','P','/','1','.','1','\r','\n',
+  'R','a','n','g','e',':',' ','b','y','t','e','s','=','2','-','5',',','7','-']
+def exReq : Bytes := exHead ++ CRLF2
+def exSnap : Snap :=
+  { parsed := true, method := 2, rawPath := lit ['/','f'], path := lit ['/','f'], query := [],
+    headers := [(lit ['R','a','n','g','e'], lit ['b','y','t','e','s','=','2','-','5',',','7','-'])], total := -1 }
+
+-- the hypotheses of `holds_run` on a concrete request (`GET /f` with `Range: bytes=2-5,7-`)
+example : breakOn CRLF2 exReq = some (exHead, []) := by decide
+example : C01.expect exEnv exHead = some exSnap := by decide
+theorem exPct : Fs.pctDecode (lit ['f']) = lit ['f'] := by
+  simp [Fs.pctDecode, lit, b]
+theorem exPlan : plan exFe (exSnap.path.drop 1) exSnap.headers =
+    .file [lit ['r'], lit ['f']] (requestedRange (HeaderMap.value RANGE exSnap.headers) 11) := by
+  unfold plan
+  have : List.drop 1 exSnap.path = lit ['f'] := by decide
+  rw [this, exPct]
+  have h1 : Fs.served exFe.tree exFe.root (lit ['f']) = some [lit ['r'], lit ['f']] := by decide
+  have h2 : Fs.kindAt exFe.tree [lit ['r'], lit ['f']] = some .file := by decide
+  simp only [h1, h2]
+  rfl
+
+def exTail : List Event := [.turn, .turn, .turn, .turn, .ackAll, .turn]
+
+/-- the theorem applies to the scenario shape the harness generates (`new feed turn×5 ackall turn`) -/
+example :
+    holds exFe (lit ['f']) (lit ['b','y','t','e','s','=','2','-','5',',','7','-']) true
+      (FsHandler.run exEnv exFe (.new :: .feed exReq :: .turn :: exTail)).sock.log = true :=
+  holds_run exEnv exFe exReq exHead exSnap _ _ exTail true (by decide) (by decide) (by decide) exPlan
+    (by decide) (by decide) (by decide)
+
+/-- and the bytes on the wire are the 206 response with bytes 2..5 of the file -/
+example :
+    Obs.wire (FsHandler.run exEnv exFe (.new :: .feed exReq :: .turn :: exTail)).sock.log =
+      lit ['H','T','T','P','/','1','.','0',' ','2','0','6',' ','P','A','R','T','I','A','L',' ','C','O','N','T','E','N','T','\r','\n',
+           'C','o','n','t','e','n','t','-','L','e','n','g','t','h',':',' ','4','\r','\n',
+           'C','o','n','t','e','n','t','-','R','a','n','g','e',':',' ','b','y','t','e','s',' ','2','-','5','/','1','1','\r','\n',
+           'C','o','n','t','e','n','t','-','T','y','p','e',':',' ','t','e','x','t','/','p','l','a','i','n','\r','\n','\r','\n',
+           'l','l','o',' '] := by
+  have hb : (requestedRange (HeaderMap.value RANGE exSnap.headers) 11).isValid = true →
+      0 ≤ (requestedRange (HeaderMap.value RANGE exSnap.headers) 11).absFrom ∧
+      (requestedRange (HeaderMap.value RANGE exSnap.headers) 11).absFrom ≤
+        (requestedRange (HeaderMap.value RANGE exSnap.headers) 11).absTo ∧
+      (requestedRange (HeaderMap.value RANGE exSnap.headers) 11).absTo < (11 : Nat) := by decide
+  rw [C08L.run_wire exEnv exFe exReq exHead ⟨2, lit ['/','f'], exSnap.headers⟩ (lit ['/','f']) [] _ _ exTail
+    (by decide) (by decide) (by decide) (by decide) exPlan (by decide) hb (by decide)]
+  decide
 
 end Qhttp.C08
